@@ -141,7 +141,7 @@ def main():
         cases.append(dict(boundary=bd, mode='roundtrip', parts=[(1, 1, 1)]))
         cases.append(dict(boundary=bd, mode='roundtrip', parts=[(1, 1, 1), (1, 1, 1)]))
         cases.append(dict(boundary='--' + bd[2:], mode='roundtrip', parts=[(1, 1, 1), (1, 1, 0)]))
-    results = chk.run_cases(case, cases, label='generate -> parse', case_timeout=150 if chk.tier == 'quick' else 1500)
+    results = chk.run_cases(case, cases, label='generate -> parse', case_timeout=600 if chk.tier == 'quick' else 1800)
     chk.extra['results_compared'] = sum(r.get('compared', 0) for r in results)
 
     def replay(v):
